@@ -411,7 +411,7 @@ func main() {
 		return
 	}
 	kit.Main(&kit.Check{
-		ID: "C40", Level: "model_checking",
+		ID: "C40", Level: "model_checking", SlowIsNotHang: true,
 		Rule:          "scenario = multiset of 2 (thorough: also 3) client requests from a menu of read-only evaluate, unconditional change, changes computed from a read, change in another world, add-world-with-change, DeleteWorld, ListWorlds and a failing change; per scenario every interleaving of the client goroutines at the service's lock points; oracle: (responses, final worlds) equals the outcome of some serial order, computed by running every permutation on a fresh service. Non-trivial = at least one scheduling choice; distinct = happens-before keys.",
 		Assumptions:   []string{"code between two lock operations runs atomically (the separate race pass covers unsynchronised accesses)", "one request per client"},
 		QuickDeadline: 200e9, ThoroughDeadline: 1500e9, CaseTimeout: 400e9, Chunk: 1, WorkerEnv: []string{"GOMAXPROCS=1"},
